@@ -14,7 +14,7 @@ VERIF_JOBS=${VERIF_JOBS:-6} VERIF_REPO=$SD/repo VERIF_BUILD=$SD/build tools/buil
 mkdir -p $SD/vd; cp $HERE/KNOWN_FINDINGS.txt $SD/vd/
 for H in "$@"; do
   VERIF_REPO=$SD/repo VERIF_BUILD=$SD/build DEV_OUT=$SD/mut_$H tools/devbuild.sh main $H > $SD/mut-h.log 2>&1 || { echo "MUTANT $(basename $P) $H: harness build failed"; continue; }
-  for seed in 1 2; do
+  for seed in 1 2; do rm -rf $SD/vd/replays/$H
     r=$(VERIF_DIR=$SD/vd $SD/mut_$H --tier quick --seed $seed --shard 0 --out $SD/mut.json 2>&1 | grep -E "^FAIL|^SUMMARY|CRASH" | cut -c1-260 | tr '\n' '|')
     case "$r" in *FAIL*|*CRASH*) v=CAUGHT;; *) v=MISSED;; esac
     echo "MUTANT $(basename $P) $H seed=$seed $v :: $r"
